@@ -613,7 +613,16 @@ func (fr *Frame) execTypeAssert(t *ssa.TypeAssert, st *State) error {
 	if t.CommaOk {
 		fr.vals[t] = Value{C: append(append([]Term{}, v.C...), ok)}
 	} else {
-		fr.implicit(st, "typeassert", ok, t.Pos(), isAnyExpr, "assert "+t.Name())
+		if vc.contract != nil && vc.contract.Flags["typeassert"] == "panic" {
+			// precise semantics: a failing assertion panics (and may be recovered by a deferred function)
+			okb := vc.defineBool("assert.ok", ok)
+			ps := st.clone()
+			ps.reach = sAnd(st.reach, sNot(okb))
+			fr.addPanic(ps)
+			st.reach = sAnd(st.reach, okb)
+		} else {
+			fr.implicit(st, "typeassert", ok, t.Pos(), isAnyExpr, "assert "+t.Name())
+		}
 		fr.vals[t] = v
 	}
 	return nil
